@@ -1,5 +1,6 @@
 """C18 implementation side.  One script, three modes (stdin JSON):
 
+  ["derived", how, i[, j]] assembles and discards -A | 3.0*A | A*3 | A-B | A+B | A*B of earlier operators;
   steps also: ["op", kind, space_index, params, "single"] (precision), ["blocked", [i, j]] (block-diagonal
   BlockedOperator of earlier operators), ["iface", i] (the (expansion_order, ncrit) the FMM backend of operator i was built with)
   {"mode": "replay", "histories": [[step, ...], ...]}
@@ -152,6 +153,14 @@ def replay(histories):
                     reset_globals()
                 elif tag == "space":
                     spaces.append((new_space(st[1]), st[1]))
+                elif tag == "derived":
+                    # assemble a derived operator and throw it away: -A, 3*A, A*3, A-B, A+B, A*B
+                    how, i = st[1], st[2]
+                    a = ops[i]["op"]
+                    b = ops[st[3]]["op"] if len(st) > 3 else a
+                    d = {"neg": lambda: -a, "scal": lambda: 3.0 * a, "rscal": lambda: a * 3, "sub": lambda: a - b,
+                         "sum": lambda: a + b, "prod": lambda: a * b}[how]()
+                    dense_of(d.weak_form())
                 elif tag == "blocked":
                     b = api.BlockedOperator(len(st[1]), len(st[1]))
                     for k, i in enumerate(st[1]):
